@@ -13,8 +13,9 @@ steps:
   ["banner", text]         print text
   ["closed"]               print "Connection closed by remote host" and exit
   ["silence", secs]        print nothing for secs
+  ["mute", secs]           echo off and print nothing for secs
   ["exit", code]
-  ["shell", flavour, prompt]   interactive shell state (sh | csh | zsh) until EOF/exit
+  ["shell", flavour, prompt]   interactive shell state (sh | csh | zsh | weird = accepts no prompt-setting command) until EOF/exit
 """
 import json
 import os
@@ -92,6 +93,12 @@ for st in script:
         sys.exit(255)
     elif k == 'silence':
         time.sleep(st[1])
+    elif k == 'mute':
+        # no output at all, not even the tty echo of what is typed
+        echo(False)
+        note('muted', '')
+        time.sleep(st[1])
+        echo(True)
     elif k == 'exit':
         sys.exit(st[1])
     elif k == 'shell':
